@@ -37,9 +37,11 @@ type W struct {
 	// also through plain assignment, so the sender does not touch them after
 	// send), and/or all coroutines are spawned from inside another coroutine.
 	ArrayPayload bool `json:"array_payload,omitempty"`
-	Nested       bool `json:"nested_spawn,omitempty"`
-	Twin         bool `json:"twin,omitempty"`
-	TwinCap      int  `json:"twin_cap,omitempty"`
+	// Payload: "" strings, "int" unique integers, "float" unique non-integral floats (L2 only)
+	Payload string `json:"payload,omitempty"`
+	Nested  bool   `json:"nested_spawn,omitempty"`
+	Twin    bool   `json:"twin,omitempty"`
+	TwinCap int    `json:"twin_cap,omitempty"`
 }
 
 func gen(r *verifsim.Rng, tier string) (any, hx.Sched) {
@@ -123,6 +125,9 @@ func gen(r *verifsim.Rng, tier string) (any, hx.Sched) {
 	if w.Level == "L2" {
 		w.ArrayPayload = r.Intn(3) == 0
 		w.Nested = r.Intn(4) == 0
+		if !w.ArrayPayload {
+			w.Payload = verifsim.Pick(r, []string{"", "", "int", "float"})
+		}
 		// the interpreter passes thousands of yield points per operation:
 		// keep preemptions sparse outside the focus files
 		s.MeanGap = verifsim.Pick(r, []int64{30, 100, 300, 1000, 3000})
@@ -197,6 +202,11 @@ func shrink(x any) []any {
 	if w.ArrayPayload {
 		c := cp()
 		c.ArrayPayload = false
+		out = append(out, c)
+	}
+	if w.Payload != "" {
+		c := cp()
+		c.Payload = ""
 		out = append(out, c)
 	}
 	if w.Nested {
